@@ -1,5 +1,12 @@
 """Fact-base loader and MIR pretty printer for the JSON emitted by elfscan."""
 import json
+import re
+
+_norm_re = re.compile(r"\b(?:std|core|alloc)::")
+
+
+def nq(q):
+    return _norm_re.sub("", q or "")
 
 
 class Facts:
@@ -10,12 +17,15 @@ class Facts:
         for fn in self.d["fns"]:
             # qual names are unique except for closures in generic contexts; keep a list
             self.fns.setdefault(fn["qual"], []).append(fn)
+        self.fns_norm = {}
+        for fn in self.d["fns"]:
+            self.fns_norm.setdefault(nq(fn["qual"]), []).append(fn)
         self.by_id = {fn["id"]: fn for fn in self.d["fns"]}
         self.consts = {c["path"]: c for c in self.d["consts"]}
         self.adts = {a["path"]: a for a in self.d["adts"]}
 
     def fn(self, qual):
-        l = self.fns.get(qual)
+        l = self.fns.get(qual) or self.fns_norm.get(nq(qual))
         if not l:
             return None
         if len(l) > 1:
